@@ -429,7 +429,7 @@ def extract_enum(repo, file, name):
     return text.strip() + "\n"
 
 
-ERR_RE = re.compile(r"(?:crate::error::)?Error::\w+\s*\(\s*format!\s*\(")
+ERR_RE = re.compile(r'(?:crate::error::)?Error::\w+\s*\(\s*(?:format!\s*\(|"[^"\n]*"\s*\.\s*(?:to_string|into)\s*\(\s*\)\s*\))')
 
 
 def rewrite_error_payloads(body):
